@@ -209,6 +209,7 @@ def judge(label: str, cfg) -> List[Tuple[str, str, dict]]:
 
 def check(tier: str, seed: int) -> Result:
     harness.quiet()
+    harness.enter_scratch()  # nodes are run once (sinks write relative paths): never in the caller's directory
     harness.load_config(gen.yaml_config(("src",)))  # loads the extension
     cfgs: List[Tuple[str, Any]] = yaml_node_configs() + factory_nodes()
     viols: List[Violation] = []
@@ -270,6 +271,7 @@ def check(tier: str, seed: int) -> Result:
 
 def replay(case) -> List[Violation]:
     harness.quiet()
+    harness.enter_scratch()  # nodes are run once (sinks write relative paths): never in the caller's directory
     harness.load_config(gen.yaml_config(("src",)))
     for label, cfg in yaml_node_configs() + factory_nodes():
         if label == case["label"]:
